@@ -92,8 +92,9 @@ Theorem C01_kruskal_any_split : forall (K : ktensor V) isplit,
     forall i, den_dense v0 D i = den_k v0 v1 vadd vmul K i.
 Proof. exact (ktensor_full_at_correct V v0 v1 vadd vmul vsub vopp Vring). Qed.
 
-(* ... and with the split point the code chooses (min_split_dims) *)
-Theorem C01_kruskal : forall K : ktensor V, rows_ok V (krank K) (kfactors K) -> 2 <= length (kfactors K) ->
+(* ... and ktensor.full as the code is, for every N >= 1: the single-mode branch (factor @ weights) and, for N >= 2, the
+   split point the code chooses (min_split_dims) *)
+Theorem C01_kruskal : forall K : ktensor V, rows_ok V (krank K) (kfactors K) -> 1 <= length (kfactors K) ->
   exists D, ktensor_full_impl v0 vadd vmul K = Some D /\ wf_dense D /\ dshape D = kshape K /\
     (forall i, den_dense v0 D i = den_k v0 v1 vadd vmul K i) /\
     D = ktensor_full_spec v0 v1 vadd vmul K.
@@ -150,7 +151,8 @@ Example C01_example_kruskal :
   let K := mkK [2; 3]%Z [[[1; 2]; [3; 4]]; [[5; 6]; [7; 8]; [9; 1]]; [[1; 0]; [2; 1]; [0; 3]; [1; 1]]]%Z in
   ktensor_full_impl 0%Z Z.add Z.mul K = Some (ktensor_full_spec 0%Z 1%Z Z.add Z.mul K) /\
   ktensor_full_at 0%Z Z.add Z.mul K 2 = ktensor_full_at 0%Z Z.add Z.mul K 1 /\
-  den_k 0%Z 1%Z Z.add Z.mul K [1; 2; 3] = 66%Z /\ min_split_dims [2; 3; 4] = Some 2.
+  den_k 0%Z 1%Z Z.add Z.mul K [1; 2; 3] = 66%Z /\ min_split_dims [2; 3; 4] = Some 2 /\
+  ktensor_full_impl 0%Z Z.add Z.mul (mkK [2; 3]%Z [[[1; 2]; [3; 4]; [5; 6]]%Z]) = Some (mkDense [3] [8; 18; 28]%Z).
 Proof. repeat split; reflexivity. Qed.
 
 Example C01_example_sum :
